@@ -103,6 +103,9 @@ inline void check_all(Ctx& c,const std::string& prop,const std::string& what){
     std::string id="slot "+std::to_string(s);
     if(m.kind==K_EMPTY){
       if(o.size!=0){ violation(c,prop,"model:other-changed",what+":empty-became-nonempty",id+" should be empty but reports size "+std::to_string(o.size)); return; }
+      // a vector without storage is indistinguishable from a default-constructed one through the public interface (it owns nothing, it views nothing)
+      if(!m.moved_from){ bool eq=true; try{ squids::SU_vector e; eq=(c.slot[s].v()==e)&&(e==c.slot[s].v()); }catch(...){ eq=false; }
+        if(!eq){ violation(c,prop,"model:invalid-state",what+":empty-not-equal-to-empty",id+" has no storage (dimension 0) but does not compare equal to a default-constructed vector: it still claims to own or view something"); return; } }
       continue;
     }
     if(o.dim!=m.dim||o.size!=m.dim*m.dim){
